@@ -13,18 +13,18 @@ import (
 func tx(acct int, nonce uint64, price int64) txSpec {
 	return txSpec{Acct: acct, Nonce: nonce, Price: price, Gas: 30000}
 }
-func (t txSpec) gas(g uint64) txSpec      { t.Gas = g; return t }
-func (t txSpec) val(v *big.Int) txSpec    { t.Value = v; return t }
-func (t txSpec) data(n, nz int) txSpec    { t.DataLen, t.NZ = n, nz; return t }
-func (t txSpec) chain(c string) txSpec    { t.Chain = c; return t }
+func (t txSpec) gas(g uint64) txSpec        { t.Gas = g; return t }
+func (t txSpec) val(v *big.Int) txSpec      { t.Value = v; return t }
+func (t txSpec) data(n, nz int) txSpec      { t.DataLen, t.NZ = n, nz; return t }
+func (t txSpec) chain(c string) txSpec      { t.Chain = c; return t }
 func add(via string, txs ...txSpec) *opSpec { return &opSpec{Kind: "add", Via: via, Txs: txs} }
-func price(p int64) *opSpec               { return &opSpec{Kind: "price", Price: p} }
-func head(event bool, mv ...move) *opSpec { return &opSpec{Kind: "head", Event: event, Moves: mv} }
+func price(p int64) *opSpec                 { return &opSpec{Kind: "price", Price: p} }
+func head(event bool, mv ...move) *opSpec   { return &opSpec{Kind: "head", Event: event, Moves: mv} }
 func mine(event bool, m map[int]int) *opSpec {
 	return &opSpec{Kind: "head", Event: event, Mine: m}
 }
-func bal(acct int, b int64) move    { return move{Acct: acct, Bal: big.NewInt(b)} }
-func dn(acct int, d int64) move     { return move{Acct: acct, DNonce: d} }
+func bal(acct int, b int64) move         { return move{Acct: acct, Bal: big.NewInt(b)} }
+func dn(acct int, d int64) move          { return move{Acct: acct, DNonce: d} }
 func (o *opSpec) limit(g uint64) *opSpec { o.GasLimit = g; return o }
 func (o *opSpec) back(n int, remine bool, extend int) *opSpec {
 	o.Back, o.Remine, o.Extend = n, remine, extend
